@@ -37,7 +37,10 @@ def cases(tier, seed):
         for grid in ([2, 2], [1, 3], [3, 1]):
             for sc in ('S1', 'S2', 'S3', 'S4', 'S5', 'S7'):
                 # S3 / S7 have > 200 choice points on 3-4 ranks: two deviations would be > 10^5 executions each
-                out.append({'kind': 'sched', 'scenario': sc, 'grid': grid, 'mode': mode, 'bound': 1 if sc in ('S3', 'S7') else b4, 'cost': 600})
+                bb = 1 if sc in ('S3', 'S7') else b4
+                nparts = 8 if bb >= 2 else 1          # two deviations on 3-4 ranks: 10^4 executions, split over 8 cases
+                for part in range(nparts):
+                    out.append({'kind': 'sched', 'scenario': sc, 'grid': grid, 'mode': mode, 'bound': bb, 'part': part, 'nparts': nparts, 'cost': 600})
         if tier == 'thorough':
             for sc in ('S1', 'S2', 'S3', 'S4', 'S5', 'S7'):
                 out.append({'kind': 'sched', 'scenario': sc, 'grid': [2, 3], 'mode': mode, 'bound': 1, 'cost': 900})
@@ -291,7 +294,12 @@ def _explore_scenario(case):
         else:
             outcomes.setdefault(obs[1], choices)
         return len(seen) > 3
-    st = explore.explore(run, bound=case['bound'], on_exec=on_exec, max_exec=20000)
+    roots = None
+    if case.get('nparts', 1) > 1:
+        roots = explore.roots_for_part(run, case['part'], case['nparts'])
+        traces.clear()
+        npoints[0] = 0
+    st = explore.explore(run, bound=case['bound'], on_exec=on_exec, max_exec=20000, roots=roots)
     if len(traces) > 1:
         a, b = list(traces.values())[:2]
         diff = next(((r, i, x, y) for r in range(len(a)) for i, (x, y) in enumerate(itertools.zip_longest(a[r], b[r])) if x != y), None)
